@@ -12,12 +12,14 @@ func init() { registry["C15"] = checkC15 }
 var c15Ops = []string{"(*rest.bootstrapContext).InsertConfig", "(*rest.bootstrapContext).UpdateConfig", "(*rest.bootstrapContext).DeleteConfig"}
 
 func checkC15(c *Ctx, r *Report) {
-	r.Explain = "Decides structural necessary conditions of consistent database configurations: (R1) the two-document protocol is ordered — inside each registry worker the registry is written only after the recovery read (getRegistryAndDatabase) succeeded and the registry mutation was accepted; the config document is written/deleted only after the registry loop succeeded; the finalising registry update only after the config write succeeded; a registry rollback to an existing config first fences the config document (CAS touch) and writes the registry only on the fence's success edge; (R2) the registry document and the per-database config documents are written only by the listed owners; (R3) every such write carries a CAS read earlier in the same operation (insert only for a registry that did not exist); (R4) loads are version-matched — a config is returned as current only on the version-equal edge (or the listed repair case), and an in-flight delete is re-attempted only for a config document that still carries the version the registry recorded; deleted entries are skipped when enumerating; (R5) storage failures on the operation paths propagate.; (R6) in-flight conflicts are computed against the previous version's collections, active conflicts against the current ones. Not decided: the outcome of recovery from each crash state, races between nodes, collection-conflict computation."
+	r.Explain = "Decides structural necessary conditions of consistent database configurations: (R1) the two-document protocol is ordered — inside each registry worker the registry is written only after the recovery read (getRegistryAndDatabase) succeeded and the registry mutation was accepted; the config document is written/deleted only after the registry loop succeeded; the finalising registry update only after the config write succeeded; a registry rollback to an existing config first fences the config document (CAS touch) and writes the registry only on the fence's success edge; (R2) the registry document and the per-database config documents are written only by the listed owners; (R3) every such write carries a CAS read earlier in the same operation (insert only for a registry that did not exist); (R4) loads are version-matched — a config is returned as current only on the version-equal edge (or the listed repair case), and an in-flight delete is re-attempted only for a config document that still carries the version the registry recorded; deleted entries are skipped when enumerating; (R5) storage failures on the operation paths propagate.; (R6) in-flight conflicts are computed against the previous version's collections, active conflicts against the current ones.; (R7) registry entries in the deleted state take no part in collection-conflict checks and are never recorded as a previous version; (R8) the version-matched load path consults the entry's previous version (so one left by an interrupted update can be cleared). Not decided: the outcome of recovery from each crash state, races between nodes, collection-conflict computation."
 	c15R1(c, r)
 	c15R2R3(c, r)
 	c15R4(c, r)
 	c15R5(c, r)
 	c15R6(c, r)
+	c15R7(c, r)
+	c15R8(c, r)
 }
 
 func c15Lits(fn *ssa.Function) []*ssa.Function {
